@@ -16,6 +16,7 @@ Blocks (JSON): see ``block_strategy``; summary
   gather   {"op":"gather","src":i}                       -> stack[:-1], nest+1  (size port of the popped scatter)
   cond     {"op":"cond","src":i,"mod":m}                 -> conditional with skip port; value or None
   loop     {"op":"loop","src":i,"m":m,"method":"last"|"all"} -> real loop subgraph; nest 1 (last) / 2 (all)
+  cross    {"op":"cross","srcs":[i,j],"mode":"flat"|"nested"} -> scatter x scatter + CartesianProductCombinator + gather(s), wired as the CWL translator does
   exec     {"op":"exec","src":i}                         -> schedule + execute pipeline (added by exec-enabled strategies)
 """
 from __future__ import annotations
@@ -149,6 +150,14 @@ def analyse(blocks: list[dict]) -> tuple[list[dict], list[StreamInfo]]:
             streams.append(StreamInfo(stacks[-1], 0))
             out.append({"op": "zip", "srcs": idx, "out": len(streams) - 1})
             continue
+        if op == "cross":
+            i, j = pick(b["srcs"][0]), pick(b["srcs"][1])
+            if i == j or streams[i].nest < 1 or streams[j].nest < 1 or streams[i].stack != streams[j].stack or len(streams[i].stack) >= 2:
+                continue
+            streams[i].consumed = streams[j].consumed = True
+            streams.append(StreamInfo(streams[i].stack, 1 if b["mode"] == "flat" else 2))
+            out.append({"op": "cross", "srcs": [i, j], "mode": b["mode"], "out": len(streams) - 1})
+            continue
         src = pick(b["src"])
         s = streams[src]
         if op == "map":
@@ -247,6 +256,16 @@ def interpret(blocks: list[dict]) -> dict[int, dict[str, Any]]:
             res[b["out"]] = o
         elif op == "exec":
             res[b["out"]] = {t: exec_fn(v) for t, v in res[b["src"]].items()}
+        elif op == "cross":
+            A, B = res[b["srcs"][0]], res[b["srcs"][1]]
+            o = {}
+            for t in A:
+                if t in B:
+                    if b["mode"] == "flat":
+                        o[t] = [zip_apply([x, y]) for x in A[t] for y in B[t]]
+                    else:
+                        o[t] = [[zip_apply([x, y]) for y in B[t]] for x in A[t]]
+            res[b["out"]] = o
         else:
             raise ValueError(op)
     return res
@@ -319,11 +338,13 @@ def program_strategy(draw, ops=("map", "zip", "scatter", "gather", "cond", "loop
                 ok = [i for i, s in enumerate(streams) if s.stack and s.nest < 3]
             elif op == "zip":
                 ok = list(range(k)) if k >= 2 else []
+            elif op == "cross":
+                ok = [i for i, s in enumerate(streams) if s.nest >= 1 and len(s.stack) < 2 and any(j != i and t.nest >= 1 and t.stack == s.stack for j, t in enumerate(streams))]
             else:
                 ok = []
             if ok:
                 by[op] = ok
-                cands.extend([op] * (3 if op in ("scatter", "gather") else 2 if op in ("zip", "loop", "exec") else 1))
+                cands.extend([op] * (3 if op in ("scatter", "gather", "cross") else 2 if op in ("zip", "loop", "exec") else 1))
         op = draw(st.sampled_from(cands))
         if op == "source":
             blocks.append({"op": "source", "value": draw(source_value)})
@@ -345,6 +366,9 @@ def program_strategy(draw, ops=("map", "zip", "scatter", "gather", "cond", "loop
                 continue
             others = draw(st.lists(st.sampled_from(part), min_size=1, max_size=2, unique=True))
             blocks.append({"op": "zip", "srcs": [src, *others]})
+        elif op == "cross":
+            part = [j for j, t in enumerate(streams) if j != src and t.nest >= 1 and t.stack == streams[src].stack]
+            blocks.append({"op": "cross", "srcs": [src, draw(st.sampled_from(part))], "mode": draw(st.sampled_from(["flat", "nested"]))})
         else:
             blocks.append({"op": op, "src": src})
     return blocks
